@@ -444,7 +444,19 @@ func Run(r *common.Run) error {
 		r.Mark("case table-concurrent %d", i)
 		runTableConcurrent(r, carrier, r.Pick(6, 12))
 	}
+	npc := 0
+	for _, carrier := range []string{"iq", "message"} {
+		for _, after := range []int{1, 2, r.Pick(5, 9)} {
+			r.Mark("case peer-close-while-writing %d", npc)
+			npc++
+			runPeerCloseWhileWriting(r, carrier, after)
+		}
+	}
 	if r.Race() {
+		for i := 0; i < 16; i++ {
+			r.Mark("case peer-close-while-writing-race %d", i)
+			runPeerCloseWhileWriting(r, []string{"iq", "message"}[i%2], 1+i%7)
+		}
 		for i := 0; i < 4; i++ {
 			r.Mark("case table-concurrent-race %d", i)
 			runTableConcurrent(r, []string{"iq", "message"}[i%2], 8+4*i)
